@@ -60,6 +60,7 @@ structure Task where
   owed : Bool := false             -- ghost: `cancel()` from outside / `ctx.cancel()` reached the live task
   touched : Bool := false          -- ghost: somebody (user, harness, a TaskGroup) ever called `cancel()` on the live task
   asks : Nat := 0                  -- ghost: number of `cancel()` calls other than the parent-cancel of an own group
+  depth : Nat := 0                 -- ghost: length of the chain of `spawn`s that led to this task (the root task: 0)
 deriving Repr
 
 structure Group where
@@ -238,13 +239,13 @@ def step (s : Sys) : Label → Option Sys
     if T.status = .body ∧ (s.tasks c).status = .absent then
       if viaGroup then
         match ctxGroup T with
-        | none => some (setTask s c { status := .fresh })                            -- detached
+        | none => some (setTask s c { status := .fresh, depth := T.depth + 1 })      -- detached
         | some g =>
           let G := s.groups g
           if refuses G then none
-          else some (setGroup (setTask s c { status := .fresh, base := some g, member := some g }) g
+          else some (setGroup (setTask s c { status := .fresh, base := some g, member := some g, depth := T.depth + 1 }) g
                       { G with members := G.members ++ [c] })
-      else some (setTask s c { status := .fresh, base := ctxGroup T })
+      else some (setTask s c { status := .fresh, base := ctxGroup T, depth := T.depth + 1 })
     else none
   | .spawnfail t _ =>
     let T := s.tasks t
